@@ -135,8 +135,12 @@ def C16(ctx):
     if ctx.quick:
         jobs = bdd_jobs(ctx, "c16", 8, 4, 200, 5)
     else:
-        jobs = bdd_jobs(ctx, "c16", 48, 5, 300, 5)
+        jobs = bdd_jobs(ctx, "c16", 48 * TH, 5, 300, 5)
     record_and_validate(ctx, jobs, "TraceBdd", "TraceBdd_C16.cfg")
+    # SDD apply / if-then-else caches: every operation of a long-lived builder is repeated on structural copies of its operands in a
+    # brand-new builder (cold caches, empty tables); both results are dumped and TLC compares their denotations
+    sj = sdd_jobs(ctx, "c16", 5, 5, 120, 5) if ctx.quick else sdd_jobs(ctx, "c16", 24 * TH, 6, 160, 5)
+    record_and_validate(ctx, sj, "TraceSdd", "TraceSdd_C16.cfg")
 
 
 def _bdd_family(ctx, mode, cfg, nq=6, nt=40, segs=4, length=160, nmax=5):
